@@ -142,6 +142,18 @@ prop("C08", [
     dict(engine="kani", sets=["config_prefix"]),
 ], explanation="prefix containment predicates against the written-prefix spec, all addresses and all prefix lengths")
 
+prop("C11", [
+    dict(engine="verus", unit="policy", fns=["check_policy", "check_policies", "apply_policy", "apply_policies",
+         "ResponseOptions::set_raw_option", "ResponseOptions::set_option", "ResponseOptions::mutate_option",
+         "ResponseOptions::mutate_option_default", "ResponseOptions::to_options"]),
+], explanation="policy selection and override: the response state after apply_policies equals the recursive model taken from the property statement (first applicable sibling only, condition-less policy applies iff a sub-policy does, own options then children then subnet defaults, null = do-not-send, only options in the parameter request list); to_options sends exactly the entries carrying a value",
+    assumptions=["parameter-request-list extraction (iterator chain .unwrap_or_default().iter().copied().map(DhcpOption::from).collect()) replaced by a stub with the obvious contract",
+                 "generic get_option::<Vec<u8>> glue assumed (parse_into proved in unit dhcpgetters)",
+                 "DhcpOptionTypeValue opaque: as_bytes() and Serialise::serialise() yield the same bytes (one-line impl `v.extend(self.as_bytes().iter())`)",
+                 "Ipv4Subnet::contains/netmask/broadcast opaque here (proved by Kani set net_subnet)",
+                 "DhcpOption obeys vstd's hash-table key model (derive(Hash, Eq) on a u8 newtype)",
+                 "build_default_config (top-level defaults: iterator chains) is NOT under contract; the order base-policy-then-configured-policies in handle_discover/handle_request is checked only as far as unit dhcphandlers goes"])
+
 prop("C12", [
     dict(engine="kani", sets=["dhcp_flag", "net_packet"]),
     dict(engine="verus", unit="dhcpparse", fns=["parse", "parse_options", "null_terminated"]),
